@@ -250,4 +250,25 @@ def runFilesL (pf vf : Nat) (mode : Mode) (files : List Bytes) : List BCmd → F
     | some .pfuel => some .pfuel
     | none => none
 
+/-- `os.ReadDir(dir)`: the names in the directory, sorted by name (byte-wise) -/
+def listDir (fs : FileSys) : List Bytes := (fs.map (·.1)).mergeSort (fun a b => bytesLe a b)
+
+/-- `RunFiles(bytecode, [dir], mode, false)` for a directory of regular files (`fs` holds exactly its entries, keyed by
+the path `dir/name` the engine opens): EVERY command lists the directory again (so it also visits what an earlier
+command created) and visits the entries in name order; an entry created while a command runs is not visited by
+that command -/
+def runFilesDir (pf vf : Nat) (mode : Mode) : List BCmd → FileSys → Option (Res (List Match × FileSys))
+  | [], fs => some (.ok ([], fs))
+  | c :: cs, fs =>
+    match runFilesCmd pf vf mode c (listDir fs) fs with
+    | some (.ok (ms, fs1)) =>
+      match runFilesDir pf vf mode cs fs1 with
+      | some (.ok (rest, fs2)) => some (.ok (ms ++ rest, fs2))
+      | some (.panic t) => some (.panic t)
+      | some .pfuel => some .pfuel
+      | none => none
+    | some (.panic t) => some (.panic t)
+    | some .pfuel => some .pfuel
+    | none => none
+
 end Vore
